@@ -589,6 +589,133 @@ fn direct_window(built: &BuiltScen, u: &URef, from: Pos, to: Pos, polls: u32) ->
     (calls, true)
 }
 
+pub const CONSUMER_KINDS: [&str; 10] = ["collect", "count", "last", "nth7", "fold", "skip_then_collect", "count_by_value", "last_by_value", "fold_by_value", "collect_by_value"];
+
+/// The same window through a std consumer instead of bare next() calls: what
+/// comes out must still be the window of U (an overridden count()/nth()/fold()
+/// or a wrong size_hint-driven shortcut shows here). Returns None if it held.
+fn consumer_window(built: &BuiltScen, u: &URef, from: Pos, to: Pos, kind: &str) -> Option<String> {
+    if !u.comparable(to) {
+        return None;
+    }
+    let want = u.window(from, to);
+    let mut st = match Stepper::new(&built.scen.flop, &built.ranges, &[(from, to)]) {
+        Ok(s) => s,
+        Err(m) => return Some(format!("construct: {m}")),
+    };
+    let dm = DeckMap::new(&built.scen.flop);
+    if kind.ends_with("_by_value") {
+        // the iterator's own count()/last()/fold()/collect() (any override included),
+        // unbounded, so under a watchdog: the only wall-clock read of this check
+        let it = st.it;
+        let want_v: Vec<(u8, u8, u64)> = want.to_vec();
+        let kind_s = kind.to_string();
+        let flop = built.scen.flop;
+        let (tx, rx) = std::sync::mpsc::channel::<Option<String>>();
+        let _ = std::thread::Builder::new().stack_size(crate::util::BIG_STACK).spawn(move || {
+            let dm = DeckMap::new(&flop);
+            let dg = |sd: &espada::evaluator::Showdown| match digest(sd, &dm) {
+                Out::Yield { t, r, h } => (t, r, h),
+                _ => (255, 255, 0),
+            };
+            let r = guarded(move || -> Option<String> {
+                match kind_s.as_str() {
+                    "count_by_value" => {
+                        let n = it.count();
+                        (n != want_v.len()).then(|| format!("count() = {n}, the window has {}", want_v.len()))
+                    }
+                    "last_by_value" => {
+                        let l = it.last().map(|s| dg(&s));
+                        (l != want_v.last().cloned()).then(|| "last() is not the last showdown of the window".to_string())
+                    }
+                    "fold_by_value" => {
+                        let n = it.fold(0usize, |a, _| a + 1);
+                        (n != want_v.len()).then(|| format!("fold() visited {n}, the window has {}", want_v.len()))
+                    }
+                    _ => {
+                        let v: Vec<(u8, u8, u64)> = it.map(|s| dg(&s)).collect();
+                        (v != want_v).then(|| format!("collect() gave {} showdowns, the window has {}", v.len(), want_v.len()))
+                    }
+                }
+            });
+            let _ = tx.send(match r {
+                Ok(x) => x,
+                Err(m) => Some(format!("panicked: {m}")),
+            });
+        });
+        return match rx.recv_timeout(std::time::Duration::from_secs(300)) {
+            Ok(x) => x,
+            Err(_) => Some("did not finish within the 300 s watchdog".to_string()),
+        };
+    }
+    let it = &mut st.it;
+    let cap = want.len() + 8;
+    let dg = |sd: &espada::evaluator::Showdown| match digest(sd, &dm) {
+        Out::Yield { t, r, h } => (t, r, h),
+        _ => (255, 255, 0),
+    };
+    let r = guarded(|| -> Result<(), String> {
+        match kind {
+            "collect" => {
+                let v: Vec<(u8, u8, u64)> = it.by_ref().take(cap).map(|s| dg(&s)).collect();
+                if v != want {
+                    return Err(format!("collect() gave {} showdowns, the window has {}", v.len(), want.len()));
+                }
+            }
+            "count" => {
+                let n = it.by_ref().take(cap).count();
+                if n != want.len() {
+                    return Err(format!("count() = {n}, the window has {}", want.len()));
+                }
+            }
+            "last" => {
+                let l = it.by_ref().take(cap).last().map(|s| dg(&s));
+                if l != want.last().cloned() {
+                    return Err("last() is not the last showdown of the window".to_string());
+                }
+            }
+            "nth7" => {
+                let mut i = 6usize;
+                loop {
+                    let got = it.nth(6).map(|s| dg(&s));
+                    let exp = want.get(i).cloned();
+                    if got != exp {
+                        return Err(format!("nth(6) stride reached element {i}: got {:?}, the window has {:?}", got.map(|x| (x.0, x.1)), exp.map(|x| (x.0, x.1))));
+                    }
+                    if got.is_none() || i > cap {
+                        break;
+                    }
+                    i += 7;
+                }
+            }
+            "fold" => {
+                let n = it.by_ref().take(cap).fold(0usize, |a, _| a + 1);
+                if n != want.len() {
+                    return Err(format!("fold() visited {n}, the window has {}", want.len()));
+                }
+            }
+            _ => {
+                let k = want.len() / 2;
+                let v: Vec<(u8, u8, u64)> = it.by_ref().skip(k).take(cap).map(|s| dg(&s)).collect();
+                if v != want[k..] {
+                    return Err(format!("skip({k}) then collect gave {} showdowns, the window has {} left", v.len(), want.len() - k));
+                }
+            }
+        }
+        Ok(())
+    });
+    match r {
+        Ok(Ok(())) => {}
+        Ok(Err(d)) => return Some(d),
+        Err(m) => return Some(format!("panicked: {m}")),
+    }
+    // and afterwards it stays exhausted
+    match st.step() {
+        Out::End => None,
+        o => Some(format!("after {kind} drained it, next() returned {}", o.short())),
+    }
+}
+
 fn window_run(scen: &Scenario, from: Pos, to: Pos, polls: u8) -> Run {
     Run {
         scens: vec![scen.clone()],
@@ -608,6 +735,8 @@ struct SweepOut {
     calls: u64,
     bad: Vec<(Pos, Pos)>,
     distinct: Vec<u64>,
+    consumer_runs: u64,
+    consumer_bad: Vec<(Pos, Pos, String, String)>,
 }
 
 /// For every start position: the listed ends (all ends when `all_pairs`).
@@ -631,7 +760,7 @@ fn sweep_windows(built: &BuiltScen, u: Arc<URef>, all_pairs: bool, extra_random:
             tos.sort();
             tos.dedup();
         }
-        let mut o = SweepOut { windows: 0, calls: 0, bad: vec![], distinct: vec![] };
+        let mut o = SweepOut { windows: 0, calls: 0, bad: vec![], distinct: vec![], consumer_runs: 0, consumer_bad: vec![] };
         for ti in tos {
             let to = pos_from_index(ti);
             let (c, ok) = direct_window(&b, &u, from, to, 2);
@@ -641,15 +770,29 @@ fn sweep_windows(built: &BuiltScen, u: Arc<URef>, all_pairs: bool, extra_random:
             if !ok && o.bad.len() < 4 {
                 o.bad.push((from, to));
             }
+            // a sample of the windows also through the std consumers
+            if !all_pairs || (ti - fi) % 97 == 0 {
+                let kind = CONSUMER_KINDS[(fi * 7 + ti) % CONSUMER_KINDS.len()];
+                if (fi + ti) % 3 == 0 {
+                    o.consumer_runs += 1;
+                    if let Some(d) = consumer_window(&b, &u, from, to, kind) {
+                        if o.consumer_bad.len() < 2 {
+                            o.consumer_bad.push((from, to, kind.to_string(), d));
+                        }
+                    }
+                }
+            }
         }
         o
     });
-    let mut tot = SweepOut { windows: 0, calls: 0, bad: vec![], distinct: vec![] };
+    let mut tot = SweepOut { windows: 0, calls: 0, bad: vec![], distinct: vec![], consumer_runs: 0, consumer_bad: vec![] };
     for o in outs {
         tot.windows += o.windows;
         tot.calls += o.calls;
         tot.bad.extend(o.bad);
         tot.distinct.extend(o.distinct);
+        tot.consumer_runs += o.consumer_runs;
+        tot.consumer_bad.extend(o.consumer_bad);
     }
     tot
 }
@@ -886,6 +1029,23 @@ fn explore(ev: &mut Evidence, vs: u64, plan: &Plan, logfold: &mut Fold) {
                 ev.violations.push(minimise(&run, &okey, vs, &format!("window sweep on {name}")));
             }
         }
+        ev.evaluations += so.consumer_runs;
+        ev.probe("windows_drained_through_std_consumers", so.consumer_runs);
+        let mut seen_kinds: Vec<String> = vec![];
+        for (from, to, kind, d) in so.consumer_bad.iter() {
+            if seen_kinds.contains(kind) {
+                continue;
+            }
+            seen_kinds.push(kind.clone());
+            ev.violations.push(Violation {
+                property: "C04".into(),
+                oracle: format!("consumer_equivalence:{kind}"),
+                key: format!("consumer_equivalence:{kind}:{}..{}:{}", pos_str(*from), pos_str(*to), scen_key(scen)),
+                detail: format!("{} | scope {}..{} drained with {kind}: {d}", scen.short(), pos_str(*from), pos_str(*to)),
+                seed: vs,
+                replay: json!({"kind":"c04_consumer","scenario": scen.to_json(), "from": [from.0, from.1], "to": [to.0, to.1], "consumer": kind}),
+            });
+        }
         // crash sweep over the whole line (or as far as the reference is known)
         let sweep_to = pos_from_index(u.known_upto);
         if !u.complete {
@@ -1002,6 +1162,18 @@ fn pos_index_safe(p: Pos) -> usize {
 
 pub fn replay(v: &Value) -> Option<(String, String)> {
     let r = &v["replay"];
+    if r["kind"].as_str() == Some("c04_consumer") {
+        let scen = Scenario::from_json(&r["scenario"]).ok()?;
+        let g = |k: &str| -> Pos { (r[k][0].as_u64().unwrap_or(0) as u8, r[k][1].as_u64().unwrap_or(0) as u8) };
+        let (from, to) = (g("from"), g("to"));
+        let kind = r["consumer"].as_str().unwrap_or("collect").to_string();
+        let built = BuiltScen { scen: scen.clone(), ranges: Arc::new(scen.build_ranges()) };
+        let u = uref(&built);
+        let prefix = if r["profile"].as_str() == Some("dev") { "dev:" } else { "" };
+        return consumer_window(&built, &u, from, to, &kind).map(|d| {
+            (format!("{prefix}consumer_equivalence:{kind}:{}..{}:{}", pos_str(from), pos_str(to), scen_key(&scen)), d)
+        });
+    }
     let run = Run::from_json(r).ok()?;
     let res = check_run(&run, None);
     let prefix = if r["profile"].as_str() == Some("dev") { "dev:" } else { "" };
